@@ -1,2 +1,138 @@
--- stub: replaced when the area is built
-def main : IO Unit := pure ()
+import Nstd.Common.Basic
+import Nstd.Callback.Model
+import Nstd.Callback.Spec
+/-
+  Line protocol of the Callback area (property C12).  Universe of the harness: 3 emitters
+  with 2 signals each, 3 listeners with 2 slots each, script cells (listener, slot,
+  invocation# < 8) of at most 8 actions.
+
+    reset
+    script <l> <s> <k> <action>*          body of slot s of listener l at its k-th invocation
+    connect <e> <g> <l> <s> | disconnect <e> <g> <l> <s> | emit <e> <g> | dell <l> | dele <e>
+    end                                   destroys the remaining listeners, then the remaining emitters
+
+  script actions: `cEGLS` connect, `dEGLS` disconnect, `mEG` emit, `Ll` delete listener,
+  `Ee` delete emitter (single digits).
+
+  Observation after a top-level action: the invocation log of that action and the
+  bookkeeping of both sides,
+    log l.s l.s ... | E0:g0=<slots> g1=<slots> E1:x ... | L0:e0=<pairs> e1=.. e2=.. L1:x ...
+  `<slots>` = `-` or comma separated `l.s` (+ `n`/`d` when the state is connecting /
+  disconnected) + `!` when the dirty flag or the activation pointer is set; `<pairs>` = `-` or
+  comma separated `g.s`; `x` = destroyed.  The driver also runs the specification machine on the
+  same lines and appends ` SPECDIFF` when the two invocation logs differ (a test of theorem
+  `emit_refines`), ` FAULT` when the model touched freed memory, ` OOF` when the fuel ran out.
+-/
+open Nstd.Common
+namespace Nstd.Callback
+
+def NE : Nat := 3
+def NG : Nat := 2
+def NL : Nat := 3
+def NS : Nat := 2
+def MAXK : Nat := 8
+def MAXACT : Nat := 8
+def FUEL : Nat := 1000000
+
+structure DState where
+  table : List ((Nat × Nat × Nat) × List Action)
+  mr : Run State
+  sr : Run Spec.SState
+
+def DState.init : DState :=
+  { table := [], mr := Run.init (State.create NE NL), sr := Run.init (Spec.SState.create NE NL) }
+
+def lookupScript (t : List ((Nat × Nat × Nat) × List Action)) (l s k : Nat) : List Action :=
+  match t.find? (fun x => x.1 == (l, s, k)) with
+  | some x => x.2
+  | none => []
+
+def digit (c : Char) (bound : Nat) : Option Nat :=
+  if '0' ≤ c ∧ c ≤ '9' ∧ c.toNat - 48 < bound then some (c.toNat - 48) else none
+
+def parseAction (t : String) : Option Action :=
+  match t.toList with
+  | ['c', e, g, l, s] => do pure (.connect (← digit e NE) (← digit g NG) (← digit l NL) (← digit s NS))
+  | ['d', e, g, l, s] => do pure (.disconnect (← digit e NE) (← digit g NG) (← digit l NL) (← digit s NS))
+  | ['m', e, g] => do pure (.emit (← digit e NE) (← digit g NG))
+  | ['L', l] => do pure (.delL (← digit l NL))
+  | ['E', e] => do pure (.delE (← digit e NE))
+  | _ => none
+
+def num (t : String) (bound : Nat) : Option Nat :=
+  match t.toNat? with
+  | some n => if n < bound then some n else none
+  | none => none
+
+def parseTop (ws : List String) : Option Action :=
+  match ws with
+  | ["connect", e, g, l, s] => do pure (.connect (← num e NE) (← num g NG) (← num l NL) (← num s NS))
+  | ["disconnect", e, g, l, s] => do pure (.disconnect (← num e NE) (← num g NG) (← num l NL) (← num s NS))
+  | ["emit", e, g] => do pure (.emit (← num e NE) (← num g NG))
+  | ["dell", l] => do pure (.delL (← num l NL))
+  | ["dele", e] => do pure (.delE (← num e NE))
+  | _ => none
+
+def slotStr (x : Slot) : String :=
+  s!"{x.receiver}.{x.slot}" ++ (match x.state with | .connected => "" | .connecting => "n" | .disconnected => "d")
+
+def slotsStr (d : Option SignalData) : String :=
+  match d with
+  | none => "-"
+  | some d =>
+    (if d.slots.isEmpty then "-" else ",".intercalate (d.slots.map slotStr)) ++
+      (if d.dirty || d.activation.isSome then "!" else "")
+
+def emitterStr (st : State) (e : Nat) : String :=
+  s!"E{e}:" ++
+    match st.emitters e with
+    | none => "x"
+    | some em => " ".intercalate ((List.range NG).map (fun g => s!"g{g}=" ++ slotsStr (em.sig g)))
+
+def pairsStr (l : List (Nat × Nat)) : String :=
+  if l.isEmpty then "-" else ",".intercalate (l.map (fun p => s!"{p.1}.{p.2}"))
+
+def listenerStr (st : State) (l : Nat) : String :=
+  s!"L{l}:" ++
+    match st.listeners l with
+    | none => "x"
+    | some li => " ".intercalate ((List.range NE).map (fun e => s!"e{e}=" ++ pairsStr (li.sigs e)))
+
+def logStr (log : List (Nat × Nat)) : String :=
+  "log" ++ String.join (log.reverse.map (fun p => s!" {p.1}.{p.2}"))
+
+def obs (d : DState) : String :=
+  let st := d.mr.m
+  logStr d.mr.log ++ " | " ++ " ".intercalate ((List.range NE).map (emitterStr st)) ++ " | " ++
+    " ".intercalate ((List.range NL).map (listenerStr st)) ++
+    (if d.mr.log != d.sr.log then " SPECDIFF" else "") ++
+    (if st.fault || d.mr.bad || !st.frames.isEmpty then " FAULT" else "") ++
+    (if d.mr.oof || d.sr.oof then " OOF" else "")
+
+def stepLine (d : DState) (ws : List String) : DState × String :=
+  match ws with
+  | ["reset"] => (DState.init, "ok")
+  | "script" :: l :: s :: k :: toks =>
+    match num l NL, num s NS, num k MAXK, toks.mapM parseAction with
+    | some l, some s, some k, some as =>
+      if as.length ≤ MAXACT then
+        ({ d with table := ((l, s, k), as) :: d.table }, "ok")
+      else (d, "bad-op")
+    | _, _, _, _ => (d, "bad-op")
+  | _ =>
+    -- `end`: the harness destroys whatever is left (listeners first, then emitters)
+    let top : Option (List Action) :=
+      if ws = ["end"] then some ((List.range NL).map Action.delL ++ (List.range NE).map Action.delE)
+      else (parseTop ws).map (fun a => [a])
+    match top with
+    | none => (d, "bad-op")
+    | some as =>
+      let P : Prog := { script := lookupScript d.table }
+      let mr := exec machine P FUEL { d.mr with log := [] } (.acts as)
+      let sr := exec Spec.machine P FUEL { d.sr with log := [] } (.acts as)
+      let d' := { d with mr := mr, sr := sr }
+      (d', obs d')
+
+end Nstd.Callback
+
+def main : IO Unit := Nstd.Common.ioLoop Nstd.Callback.DState.init Nstd.Callback.stepLine
